@@ -3,6 +3,7 @@
 ASSUMPTIONS = {
     "E1": "io.BytesIO replaced by a pure-Python file object (SymBytesIO) so written symbolic octets stay symbolic",
     "E2": "format(int, ''|'d'|'03d'|'02x'|'x') on a symbolic non-negative int computed by digit arithmetic",
+    "E2b": "a harness container type carrying _vf_format_const renders as that constant in f-strings (socket address tuples inside the UnexpectedSource message; the message text is not the subject)",
     "E3": "`symbolic_int in b'...'` decided by equality against each member",
     "E4": "bytes.isdigit / bytes.isalnum on symbolic bytes decided arithmetically; int(symbolic bytes) routed through CrossHair's symbolic int(str)",
     "E5": "dns.enum.IntEnum.make / IntFlag(value) on a symbolic int: real range check, then the int itself",
